@@ -28,6 +28,10 @@ def scenarios(tier: str) -> List[ConcScenario]:
     S.append(ConcScenario('resize/insert-vs-get', hasher='identity', capacity=1, prefill=[0], threads=[[('insert', 1)], [('get', 0)]], preemptions=p))
     S.append(ConcScenario('resize/insert-vs-remove', hasher='identity', capacity=1, prefill=[0], threads=[[('insert', 2)], [('remove', 0)]], preemptions=p))
     S.append(ConcScenario('resize/insert-vs-replace', hasher='identity', capacity=1, prefill=[0], threads=[[('insert', 1)], [('insert', 0)]], preemptions=p))
+    # a replacing insert of the bin head while the bin is being copied (split by a resize: the head is before the reused run;
+    # treeified: every node is copied)
+    S.append(ConcScenario('resize/insert-vs-replace-copied-head', hasher='identity', capacity=2, prefill=[0, 4], threads=[[('insert', 1)], [('insert', 0)]], preemptions=p))
+    S.append(ConcScenario('treeify/insert-vs-replace-head', hasher='const', capacity=40, prefill=list(range(8)), threads=[[('insert', 8)], [('insert', 0)]], preemptions=2, yield_loads=th))
     # tree bins
     tree = list(range(10))
     S.append(ConcScenario('tree/remove-vs-insert', hasher='samebin', capacity=40, prefill=tree, threads=[[('remove', 3)], [('insert', 10)]], preemptions=2, yield_loads=th))
